@@ -275,6 +275,23 @@ def check(run):
                 if out != "accept":
                     run.violation(f"signatures made by the real gpg binary and transcribed by the library's GPG path are not accepted: {out}",
                                   {"kind": "gnupg", "envelope": env, "exc": exc})
+                # the same through the two rules built on verify_signable (a root vouching for itself in OpenPGP mode), and with entries of
+                # every other kind filed BEFORE the genuine ones (raw signatures, malformed values, junk names): they are skipped, not fatal
+                od, oe, _ = lib.call(auth.verify_delegation, "root", env, copy.deepcopy(env), gpg=True)
+                prev = copy.deepcopy(env)
+                prev["signed"]["version"] = env["signed"]["version"] - 1 if env["signed"]["version"] > 1 else 0
+                orr, ore, _ = (lib.call(auth.verify_root, prev, env) if prev["signed"]["version"] >= 1 else ("accept", None, ""))
+                other = keys.pub[2]
+                tcb = twin_canon(env["signed"])
+                noise = {other: {"signature": keys.sign(2, tcb).hex()}, "junk": "x", keys.pub[3]: {"signature": "zz"},
+                         keys.pub[1]: {"other_headers": "", "signature": "00" * 64}}
+                mixed = {"signatures": {**dict(rr.sample(sorted(noise.items()), rr.randint(1, 4))), **env["signatures"]}, "signed": env["signed"]}
+                om, ome, _ = lib.call(auth.verify_signable, mixed, qs + [other], len(qs), gpg=True)
+                run.evaluations += 3
+                for what, o, e in (("verify_delegation('root', doc, doc, gpg=True)", od, oe), ("verify_root(previous version, doc)", orr, ore),
+                                   ("verify_signable(gpg=True) with other kinds of entries filed first", om, ome)):
+                    if o != "accept":
+                        run.violation(f"signatures made by the real gpg binary are not accepted through {what}: {o}", {"kind": "gnupg", "envelope": env, "exc": e})
                 # independent oracle agrees that the transcription is the RFC framing
                 for qk, ent in env["signatures"].items():
                     if not crypto.ed25519_ref_verify(bytes.fromhex(qk), crypto.gpg_digest(twin_canon(env["signed"]), bytes.fromhex(ent["other_headers"])),
